@@ -560,7 +560,7 @@ def opConvert (kind : String) (x : Text) (out : String) : String × String :=
       -- what each conversion must do, by its name
       let want (n : String) : Option Bool :=
         if ["as_uri_ref", "as_iri", "as_iri_ref", "asref_uri_ref", "borrow_iri", "into_uri_ref", "into_iri",
-            "into_iri_ref", "from_buf", "from_iri_ref", "from_buf_iri_ref"].contains n then
+            "into_iri_ref", "from_buf", "from_iri_ref", "from_buf_iri_ref", "iri_accepts", "iri_ref_accepts"].contains n then
           (match k, n with
            | .uriRef, "as_iri" => some hasScheme
            | .iri, "as_uri_ref" => some ur
